@@ -613,6 +613,17 @@ def judge_case(ctx, case, R, M):
 def judge_traj(ctx, case, T_):
     sub = {"content": case["content"], "t_end": case["t_end"]}
     used = 0
+    # well-posedness gate (uses the runs WITHOUT Jacobian only): the methods must agree among themselves,
+    # otherwise the trajectory passes a pole / blows up and no two solver configurations agree
+    plain = [row[False]["ok"] for row in T_.values() if "ok" in row[False]]
+    if len(plain) < 2:
+        ctx.hist["traj_skipped_not_two_methods"] = ctx.hist.get("traj_skipped_not_two_methods", 0) + 1
+        return 0
+    scale0 = max([1.0] + [abs(v) for p_ in plain for col in p_ for v in col])
+    spread = max([0.0] + [abs(x - y) for p_ in plain[1:] for ca, cb in zip(plain[0], p_) for x, y in zip(ca, cb)])
+    if not spread <= TRAJ_TOL * scale0:
+        ctx.hist["traj_skipped_ill_conditioned"] = ctx.hist.get("traj_skipped_ill_conditioned", 0) + 1
+        return 0
     for meth, row in T_.items():
         a, b = row[False], row[True]
         if any("err" in r and r["err"][0] == "Budget" for r in (a, b)):
@@ -660,7 +671,7 @@ def run(ctx):
     setup(ctx)
     rng = ctx.rng
     cases = corpus()
-    n = ctx.n(260, 2000)
+    n = ctx.n(260, 4000)
     if not ctx.proof_ok and ctx.tier == "quick":
         n = 1000  # a proof / translator obligation is broken: widen the failing-input search
     gen = []
@@ -683,7 +694,7 @@ def run(ctx):
     # trajectories: quick = the two corpus models that convert; thorough = generated ones incl. stiff
     tcases = [dict(c, t_end=2) for c in corpus() if c["tag"] in ("jac-closure", "decl-order")]
     if ctx.tier == "thorough":
-        for i in range(90):
+        for i in range(150):
             c = gen_content(rng, rational=(i % 2 == 0), p_odd=0.0, stiff=(i % 3 == 0))
             if should_convert(c) == "ok":
                 tcases.append({"content": c, "points": [], "t_end": 1 if i % 3 == 0 else 2})
